@@ -3,7 +3,7 @@
    every loop head and the recorded history satisfies iter_ok: votes + residual = papers cast. *)
 From Coq Require Import ZArith List Bool String Lia.
 From Droop Require Import Model.KernelBase Model.Arith Model.State Model.Prims Model.Prelude Model.RulesMeek Model.Election
-  Proofs.Zlike Proofs.CmdMeta Proofs.MeekDist Proofs.MeekRun Proofs.MeekKfRun Proofs.ConserveCount.
+  Proofs.Zlike Proofs.CmdMeta Proofs.MeekDist Proofs.Decided Proofs.MeekRun Proofs.MeekKfRun Proofs.MeekPrfRun Proofs.ConserveCount.
 Import ListNotations.
 Open Scope Z_scope.
 
@@ -120,6 +120,75 @@ Proof.
   specialize (Ht fuel _ s k eq_refl He). destruct k; try contradiction.
   unfold EndSnap in Ht. destruct (actions s) as [|a rest]; [contradiction|]. destruct Ht as [Et Hs].
   destruct (a_snap a) as [sn|] eqn:Es; [|contradiction]. exists a, rest, sn. auto.
+Qed.
+
+(* ================= meek-prf ================= *)
+Lemma residual_init (pr : profile) : residual (init_state A cfg pr) = V0' A.
+Proof.
+  unfold init_state. cbv zeta. cbn [residual set_eballots set_ballots].
+  match goal with |- residual (fold_left ?f ?l ?s0) = _ => change (residual (fold_left f l s0) = residual s0) end.
+  apply proj_fold. intros s p. reflexivity.
+Qed.
+
+Lemma tot_zero_votes (l : list (cand A)) : tot A S ZL (map (fun c => with_vote c (V0' A)) l) = 0.
+Proof.
+  unfold MeekDist.tot. induction l as [|c l IH]; [reflexivity|]. cbn [map fold_right cvote with_vote]. rewrite IH.
+  unfold V0'. rewrite (r_of_int A S ZL). lia.
+Qed.
+
+Lemma prep_init (pr : profile) : wf_profile pr ->
+  PreP A S ZL (S * ballot_total pr) (S * eballot_total pr) (live_ids pr) (zero_votes A (init_state A cfg pr)).
+Proof.
+  intros Hwf. destruct (init_state_shape A cfg pr) as (Ec & Eb & Ea).
+  assert (HV0: R (V0' A) = 0) by (unfold V0'; rewrite (r_of_int A S ZL); lia).
+  assert (Hc0: forall c, In c (cands (zero_votes A (init_state A cfg pr))) -> exists p, In p (pr_cands pr) /\ c = with_vote (init_cand A p) (V0' A)).
+  { intros c Hc. unfold zero_votes in Hc. cbn [cands set_cands] in Hc. apply in_map_iff in Hc. destruct Hc as (c0 & <- & Hc0).
+    rewrite Ec in Hc0. apply in_map_iff in Hc0. destruct Hc0 as (p & <- & Hp). exists p. split; [exact Hp|reflexivity]. }
+  assert (Eids: map (@cid A) (cands (zero_votes A (init_state A cfg pr))) = map pc_cid (pr_cands pr)).
+  { unfold zero_votes. cbn [cands set_cands]. rewrite Ec, !map_map. reflexivity. }
+  split; [split; [constructor|]|split; [split|split; [|split]]].
+  - rewrite Eids. exact (proj1 Hwf).
+  - intros c Hc _. destruct (Hc0 c Hc) as (p & _ & ->). exact HV0.
+  - intros c Hc _. destruct (Hc0 c Hc) as (p & _ & ->). reflexivity.
+  - unfold zero_votes. cbn [ballots eballots set_cands]. rewrite Eb, eballots_init, sum_mult_mk, sum_emult_mk. unfold ballot_total, eballot_total. lia.
+  - unfold zero_votes. cbn [actions set_cands]. eapply Forall_impl; [|exact Ea]. intros a Ha _. rewrite Ha. exact I.
+  - intros c Hc Hh. destruct (Hc0 c Hc) as (p & Hp & ->). cbn [cid with_vote init_cand]. intros Hin.
+    unfold live_ids in Hin. apply in_map_iff in Hin. destruct Hin as (pc & Eid & Hpc). apply filter_In in Hpc. destruct Hpc as [Hpc Hw].
+    assert (pc = p) by (apply (nodup_map_inj pc_cid (pr_cands pr)); [exact (proj1 Hwf)|exact Hpc|exact Hp|exact Eid]). subst pc.
+    unfold is_he, in_state in Hh. cbn [cst with_vote init_cand] in Hh. destruct (pc_withdrawn p); cbn in *; discriminate.
+  - unfold zero_votes. cbn [ballots set_cands]. rewrite Eb, sum_mult_mk. unfold ballot_total. reflexivity.
+  - unfold zero_votes. cbn [actions set_cands]. eapply Forall_impl; [|exact Ea]. intros a Ha _. rewrite Ha. exact I.
+  - unfold zero_votes. cbn [cands set_cands]. apply tot_zero_votes.
+  - unfold zero_votes. cbn [residual set_cands]. rewrite residual_init. exact HV0.
+  - unfold zero_votes at 1. cbn [ballots set_cands]. rewrite Eb. intros b Hb. unfold mk_ballots in Hb. apply in_flat_map in Hb. destruct Hb as ([m r] & Hmr & Hb).
+    destruct r as [|r0 r]; [contradiction|]. destruct Hb as [<-|[]]. exists r0. split; [reflexivity|].
+    destruct (proj2 (proj2 Hwf m (r0 :: r) Hmr) r0 (or_introl eq_refl)) as (pc & Hpc & Eid & Hw).
+    split; [apply live_in; exists pc; auto|]. rewrite Eids, <- Eid. apply in_map. exact Hpc.
+Qed.
+
+(* the snapshots the property names (begin, elections inside an iteration, ties, the defeat logged before the exclusion):
+   tallies + residual = the strictly ranked ballots cast; and the final 'end' action *)
+Theorem count_meek_prf pr fuel s k : wf_profile pr ->
+  exec (@crashed A) fuel (count_cmd A cfg RMeekPrf) (init_state A cfg pr) = Some (s, k) -> k <> Abort ->
+  (forall a sn, In a (actions s) -> claimed (a_tag a) (a_msg a) = true -> a_snap a = Some sn ->
+     R (as_votes sn) + match as_nt sn with Some x => R x | None => 0 end = S * ballot_total pr) /\
+  (exists a rest sn, actions s = a :: rest /\ a_tag a = TEnd /\ a_snap a = Some sn /\
+     R (as_votes sn) + match as_nt sn with Some x => R x | None => 0 end = cf_nballots cfg * S).
+Proof.
+  intros Hwf He Hk.
+  set (T := S * ballot_total pr). set (E := S * eballot_total pr).
+  assert (Ht: triple est (@crashed A) (fun s0 => s0 = init_state A cfg pr) (count_cmd A cfg RMeekPrf)
+            (fun s => PH A S ZL T s /\ EndSnap A S ZL cfg s) (fun _ => False) (fun _ => False)).
+  { unfold count_cmd. eapply t_seq with (M := PreP A S ZL T E (live_ids pr)).
+    - apply t_do. intros s0 ->. apply prep_init. exact Hwf.
+    - eapply t_seq with (M := EndOKp A S ZL cfg T E); [cbn [rule_cmd]; apply (meek_prf_triple A S ZL cfg T E Hmeth)|].
+      apply t_do. intros s0 (M & Hn & Hq & P). split.
+      + apply (ph_log A S ZL cfg T Hmeth); [discriminate|exact P].
+      + apply (end_snap A S ZL cfg (T + E) Hmeth). split; [exact M|split; assumption]. }
+  specialize (Ht fuel _ s k eq_refl He). destruct k; try contradiction. destruct Ht as [[_ P2] Hs]. split.
+  - intros a sn Ha Hc Hsn. rewrite Forall_forall in P2. specialize (P2 a Ha Hc). rewrite Hsn in P2. exact P2.
+  - unfold EndSnap in Hs. destruct (actions s) as [|a rest]; [contradiction|]. destruct Hs as [Et Hs].
+    destruct (a_snap a) as [sn|] eqn:Es; [|contradiction]. exists a, rest, sn. auto.
 Qed.
 
 (* ---- keep factors in range, nothing negative (arithmetics with exact comparisons and roundings) ---- *)
